@@ -80,7 +80,18 @@ def world_static():
             for k in c.__mro__:
                 table[k.__name__] = [b.__name__ for b in k.__bases__]
         _W["w"] = (names, sorted(table.items()))
+        # what a column type IS, by the harness's own rule (not get_column_types'): a class of
+        # maflib.column_types that is a MafColumnRecord
+        import inspect
+        import maflib.column_types as CT
+        from maflib.column import MafColumnRecord
+        _W["types"] = sorted(n for n, o in vars(CT).items() if inspect.isclass(o) and issubclass(o, MafColumnRecord))
     return _W["w"]
+
+
+def column_type_names():
+    world_static()
+    return _W["types"]
 
 
 def builtin_files():
@@ -185,7 +196,10 @@ def to_model(case):
     if "resolve" in case:
         # a history on a fresh registry (the cluster's second request form): one registration, then lookups
         rs = case["resolve"]
-        ops = [[0, [S(n) for n in rs["extra"]]]]
+        ops = []
+        for k, v, a in rs.get("pre", []):
+            ops.append([QKIND["find" if k == "hdr" else k], [] if v is None else [S(v)], [] if a is None else [S(a)]])
+        ops.append([0, [S(n) for n in rs["extra"]]])
         for k, v, a in rs["queries"]:
             ops.append([QKIND["find" if k == "hdr" else k], [] if v is None else [S(v)], [] if a is None else [S(a)]])
         return [1, enc_world(case["files"], rs["extra"], True), [], ops]
@@ -224,10 +238,11 @@ def _dec_short(s):
 def from_model(case, sx):
     if "resolve" in case:
         table, steps = sx
-        (o0, _), rest = steps[0], steps[1:]
-        reg = {"exc": dec_exn(o0[1])} if o0[0] == 0 else {"ok": sorted(_dec_short(x) for x in o0[1])}
+        npre = len(case["resolve"].get("pre", []))
+        (o0, _), rest = steps[npre], steps[:npre] + steps[npre + 1:]
+        reg = {"exc": dec_exn(o0[1])} if o0[0] == 0 else {"ok": [_dec_short(x) for x in o0[1]]}
         ans = []
-        for (k, v, a), (o, _) in zip(case["resolve"]["queries"], rest):
+        for (k, v, a), (o, _) in zip(case["resolve"].get("pre", []) + case["resolve"]["queries"], rest):
             if o[0] == 0:
                 r = {"exc": dec_exn(o[1])}
                 if k == "hdr" and r["exc"] == "ValueError":
@@ -235,7 +250,7 @@ def from_model(case, sx):
             else:
                 r = {"ok": _dec_short(o[1][0]) if o[1] else None}
             ans.append(r)
-        return {"resolve": {"reg": reg, "answers": ans}}
+        return {"resolve": {"reg": reg, "pre": ans[:npre], "answers": ans[npre:]}}
     out = []
     for (mode, _), r in zip(case["runs"], sx):
         if r[0] == 0:
@@ -345,6 +360,10 @@ def _base_api_problems():
         prob.append("built-in-filenames")
     if sorted(os.path.basename(f) for f in fn) != sorted(n[1:] for n, _ in builtin_files()):
         prob.append("built-in-filenames-differ-from-schemas-directory")
+    from maflib.column_types import get_column_types
+    got = get_column_types()
+    if [n for n, _ in got] != column_type_names() or any(not (isinstance(c, type) and issubclass(c, MafColumnRecord)) for _, c in got):
+        prob.append("column-types-are-not-exactly-the-column-classes")
     return ["base-api-" + p for p in prob]
 
 
@@ -413,30 +432,32 @@ def _resolve_here(case):
         c = s if isinstance(s, type) else type(s)
         return ["norestr"] if c is NoRestrictionsScheme else [c.version(), c.annotation_spec()]
 
+    def ask(k, v, a):
+        try:
+            if k == "findcls":
+                r = sf.find_scheme_class(version=v, annotation=a)
+            elif k == "find":
+                r = sf.find_scheme(version=v, annotation=a)
+            else:
+                from maflib.header import MafHeader
+                lines = ([] if v is None else ["#version " + v]) + ([] if a is None else ["#annotation.spec " + a])
+                r = MafHeader.from_lines(lines).scheme()
+            return {"ok": None if r is None else short(r)}
+        except Exception as e:
+            return {"exc": excname(e)}
+
     try:
         write_files(wd, case["files"])
+        pre = [ask(k, v, a) for k, v, a in rs.get("pre", [])]
         try:
             l = sf.all_schemes(extra_filenames=[real_path(wd, n) for n in rs["extra"]])
-            reg = {"ok": sorted(short(s) for s in l)}
+            reg = {"ok": [short(s) for s in l]}
         except Exception as e:
             reg = {"exc": excname(e)}
-        ans = []
-        for k, v, a in rs["queries"]:
-            try:
-                if k == "findcls":
-                    r = sf.find_scheme_class(version=v, annotation=a)
-                elif k == "find":
-                    r = sf.find_scheme(version=v, annotation=a)
-                else:
-                    from maflib.header import MafHeader
-                    lines = ([] if v is None else ["#version " + v]) + ([] if a is None else ["#annotation.spec " + a])
-                    r = MafHeader.from_lines(lines).scheme()
-                ans.append({"ok": None if r is None else short(r)})
-            except Exception as e:
-                ans.append({"exc": excname(e)})
+        ans = [ask(k, v, a) for k, v, a in rs["queries"]]
     finally:
         shutil.rmtree(wd, ignore_errors=True)
-    return {"resolve": {"reg": reg, "answers": ans}}
+    return {"resolve": {"reg": reg, "pre": pre, "answers": ans}}
 
 
 def _resolve_isolated(case):
@@ -564,7 +585,7 @@ def _defs_of(case, mode, order):
     names = list(order)
     if mode == "load_all":
         names = [n for n, _ in builtin_files()] + names
-    types = set(world_static()[0])
+    types = set(column_type_names())
     defs = []
     for n in names:
         spec = file_spec(case["files"], n)
@@ -665,6 +686,31 @@ def spec_eval(case, mode, order):
     return out
 
 
+def doc_sort_key(version, annot):
+    """documented order of the scheme list: by version, then annotation; gdc-N.N.N[-rest] as numbers then rest"""
+    def part(x):
+        if not x.startswith("gdc-"):
+            return [-1, -1, -1, x]
+        body = x[4:]
+        nums, _, rest = body.partition("-")
+        return [int(t) for t in nums.split(".")] + [rest]
+    return part(version) + part(annot)
+
+
+def list_order_problems(pairs):
+    """pairs: [[version, annotation] | ['norestr']] as returned; documented patterns only"""
+    ps = [NOREST if p == ["norestr"] else p[:2] for p in pairs]
+    if any(not documented(v) or not documented(a) for v, a in ps):
+        return []
+    try:
+        keys = [doc_sort_key(v, a) for v, a in ps]
+    except ValueError:
+        return []
+    if any(len(k) != 8 for k in keys):
+        return []
+    return [] if keys == sorted(keys) else ["scheme-list-not-sorted-by-version-then-annotation"]
+
+
 def _as_map(run, mode):
     if mode == "build":
         return {k: v for k, v in run["ok"]}
@@ -688,9 +734,14 @@ def _oracle_resolve(case, obs):
             out.append("well-formed-set-rejected %s by all_schemes" % r["reg"]["exc"])
         return out
     pairs = [[v, a] for a, v in sp["versions"].items()]
-    if sorted(pairs + [["norestr"]]) != r["reg"]["ok"]:
+    if sorted(pairs + [["norestr"]]) != sorted(r["reg"]["ok"]):
         out.append("all-schemes-pairs-wrong got %s" % [p for p in r["reg"]["ok"] if p not in pairs][:4])
-    for (k, v, a), ans in zip(rs["queries"], r["answers"]):
+    out.extend(list_order_problems(r["reg"]["ok"]))
+    sp0 = spec_eval(case, "load_all", [])
+    pairs0 = [[v, a] for a, v in sp0["versions"].items()]
+    todo = [(q, ans, pairs0, sp0, "before the registration") for q, ans in zip(rs.get("pre", []), r.get("pre", []))] + \
+           [(q, ans, pairs, sp, "after the registration") for q, ans in zip(rs["queries"], r["answers"])]
+    for (k, v, a), ans, pairs, sp, when in todo:
         if not v and not a:
             want = {"exc": "ValueError"} if k != "hdr" else {"ok": None}
         elif not a:
@@ -702,7 +753,7 @@ def _oracle_resolve(case, obs):
             want = {"ok": [v, a] if [v, a] in pairs else (["norestr"] if [v, a] == NOREST and k == "findcls" else None)}
         if ans != want:
             what = "version-only" if (v and not a) else "annotation-only" if (a and not v) else "pair" if v else "empty"
-            out.append("%s-lookup-wrong %s(%r, %r) gave %s, the rule says %s" % (what, k, v, a, ans, want))
+            out.append("%s-lookup-wrong %s(%r, %r) %s gave %s, the rule says %s" % (what, k, v, a, when, ans, want))
     return out[:8]
 
 
@@ -726,6 +777,12 @@ def oracle(case, obs):
         if errs and oks:
             out.append("order-dependent-outcome error in order %s but success in order %s" % (
                 [o for o, r in grp if "exc" in r][0], oks[0][0]))
+        if mode == "load_all" and len(oks) > 1:
+            l0 = [v[:2] for v in oks[0][1]["ok"]]
+            for o, r in oks[1:]:
+                if [v[:2] for v in r["ok"]] != l0:
+                    out.append("order-dependent-list-order orders %s and %s list the schemes differently" % (oks[0][0], o))
+                    break
         if len(oks) > 1:
             m0 = _as_map(oks[0][1], mode)
             for o, r in oks[1:]:
@@ -751,6 +808,8 @@ def oracle(case, obs):
                 out.append("two-schemes-for-one-pair in order %s" % order)
             if mode == "load_all" and r["ok"].count(["norestr"]) != 1:
                 out.append("no-restrictions-scheme-missing in order %s" % order)
+            if mode == "load_all":
+                out.extend(p + " in order %s" % order for p in list_order_problems(r["ok"]))
         if bad_terms:
             if "ok" in r and not sp["unclean"]:
                 out.append("uncreatable-class-accepted in order %s" % order)
@@ -850,6 +909,8 @@ def gen_forest(rng, n, roots_extend=None, version=None, tag="a"):
         annot = "gdc-%d.%d.%d-%s%d" % (rng.randint(1, 3), rng.randint(0, 2), rng.randint(0, 2), tag, i)
         if rng.random() < 0.15:
             annot = "%s-spec-%d" % (tag, i)
+        elif rng.random() < 0.25:
+            annot = "gdc-1.0.0-%s-%s" % (tag, "abcdefgh"[7 - i % 8] * (1 + i // 8))     # siblings that differ after the second hyphen
         cands = [k for k in range(i) if info[k][0] < 4]
         parent = rng.choice(cands) if cands and rng.random() < 0.7 else None
         cols = []
@@ -1159,7 +1220,9 @@ def _gen_resolve(rng):
         q.append([rng.choice(["findcls", "find", "hdr"]), d["version"], d["annotation-spec"]])
     q.append([rng.choice(["findcls", "find", "hdr"]), None, None])
     q.append(["findcls"] + NOREST)
-    return {"stream": "resolve", "note": "lookup rules", "files": files, "runs": [], "resolve": {"extra": extra, "queries": q}}
+    pre = [x for x in q if rng.random() < 0.5] if rng.random() < 0.6 else []
+    return {"stream": "resolve", "note": "lookup rules", "files": files, "runs": [],
+            "resolve": {"pre": pre, "extra": extra, "queries": q}}
 
 
 def generate(rng, n):
@@ -1223,6 +1286,15 @@ def corpus():
                     ["findcls", "gdc-1.0.0", None], ["find", "gdc-1.0.0", None], ["hdr", "gdc-1.0.0", None],
                     ["findcls", "lab-1", None], ["find", "lab-1", None], ["hdr", "lab-1", None],
                     ["find", None, "gdc-0.9.0-legacy"], ["find", "lab-1", "lab-1-extended"]]}})
+    out.append({"stream": "corpus", "note": "a pair looked up before it is registered resolves after the registration (no stale answers)",
+                "files": f, "runs": [], "resolve": {
+                    "pre": [["findcls", "lab-1", "lab-1-extended"], ["find", "gdc-1.0.0", "gdc-0.9.0-legacy"], ["hdr", "gdc-1.0.0", "gdc-1.0.0-public"]],
+                    "extra": list(f),
+                    "queries": [["findcls", "lab-1", "lab-1-extended"], ["find", "gdc-1.0.0", "gdc-0.9.0-legacy"], ["hdr", "gdc-1.0.0", "gdc-1.0.0-public"]]}})
+    Y1 = {"version": "gdc-1.0.0", "annotation-spec": "gdc-1.0.0-zz-b", "extends": "None", "columns": [["y0", "StringColumn"]], "filtered": "None"}
+    Y2 = {"version": "gdc-1.0.0", "annotation-spec": "gdc-1.0.0-zz-a", "extends": "None", "columns": [["y1", "StringColumn"]], "filtered": "None"}
+    f = _files_of([Y1, Y2], prefix="y")
+    out.append(_case("corpus", f, _perm_runs(None, f, mode="load_all"), "the scheme list is sorted by the whole annotation, whatever the load order"))
     return out
 
 
@@ -1231,6 +1303,8 @@ def shrink(case):
         rs = case["resolve"]
         for i in range(len(rs["queries"])):
             yield dict(case, resolve=dict(rs, queries=rs["queries"][:i] + rs["queries"][i + 1:]))
+        for i in range(len(rs.get("pre", []))):
+            yield dict(case, resolve=dict(rs, pre=rs["pre"][:i] + rs["pre"][i + 1:]))
         for n in list(rs["extra"]):
             yield dict(case, files={k: v for k, v in case["files"].items() if k != n},
                        resolve=dict(rs, extra=[x for x in rs["extra"] if x != n]))
